@@ -47,7 +47,9 @@ MANIFEST = dict(
           "ends with the observed Run result, Wait returned, no mock Run/Shoot active and no goroutine left. The engine runs of the repository's "
           "own tests (go test -tags verif ./core/engine, thorough: ./tests/acceptance; every leaf test in its own process, seeded jitter) are "
           "recorded by a tag-only file sink and validated by TracePoolRunHooks.tla, which re-uses the same engine actions with the most general "
-          "environment in place of the scripted components. This is the right level: the "
+          "environment in place of the scripted components. Engine.tla (2-3 pools by contract) also has plans whose pools SHARE an id "
+          "(copy-pasted id / explicit id equal to a generated default): Run must still wait for every pool; the id-keyed hook lines of "
+          "those runs are attributed existentially by TraceEngine.tla, negative control: a pending SET of ids. This is the right level: the "
           "property quantifies over fault positions and over the orders in which the await loop sees its results, which is what a model "
           "checker enumerates and what hand-ordered unit tests cannot."),
     note=("Bounds: <= 2 instances (3 in the thorough tier and for repository-test traces), <= 2 tokens, <= 3 ammo, one fault per pool + one cancel, "
@@ -95,7 +97,8 @@ def plan_sig(pl):
     return "fault=%s errvalue=%s shape=%s pools=%d cancel=%s" % ("/".join(p["fault"] for p in pl["pools"]),
                                                                  "/".join(p.get("ek", "plain") for p in pl["pools"]),
                                                      "/".join(p["shape"] for p in pl["pools"]),
-                                                     len(pl["pools"]), str(pl["cancel"]).lower())
+                                                     len(pl["pools"]), str(pl["cancel"]).lower()) + (
+        " poolids=%s" % pl["dupid"] if pl.get("dupid", "none") != "none" else "")
 
 
 def compact(ev):
